@@ -99,6 +99,15 @@ static void handle_msg(const tN2kMsg &m) {
     *g_out += hex(m.Data, (m.DataLen >= 0 && m.DataLen <= 223) ? m.DataLen : 0); *g_out += " ";
   }
 }
+// gfapp=1: the application installs its own catch-all group function handler (PGN 0) that declines everything: the library's handlers
+// behind it answer as if it were not there
+class tDeclineAll : public tN2kGroupFunctionHandler {
+public:
+  tDeclineAll(tNMEA2000 *p) : tN2kGroupFunctionHandler(p, 0) {}
+  // (a group function that names PGN 0 itself "matches" a PGN-0 handler and ends the walk there: for that one the handler does what the library's
+  //  own default handler - the same class - does)
+  bool Handle(const tN2kMsg &m, tN2kGroupFunctionCode c, unsigned long pgn, int idev) override { return pgn == 0 ? tN2kGroupFunctionHandler::Handle(m, c, pgn, idev) : false; }
+};
 static tNMEA2000 *g_onopen_node = 0; static uint32_t g_onopen_iv = 0, g_onopen_off = 0;
 // appsched=<period>,<offset>: the application's own tN2kSyncScheduler, given its period and offset in the OnOpen callback (the documented
 // use: schedules synchronised to the moment of Open()); the harness polls it after every operation and logs note:7 when it fires
@@ -263,6 +272,7 @@ static void run_case(const std::string &line) {
     bool shortc = kv.count("short") && kv["short"] == "1";
     // onopen=<interval>,<offset>: the application configures the heartbeat from its SetOnOpen callback (the last thing Open() does)
     g_onopen_node = 0;
+    if (kv.count("gfapp") && kv["gfapp"] == "1") n->AddGroupFunctionHandler(new tDeclineAll(n));
     g_app_on = false; g_app.Disable();
     if (kv.count("appsched")) { size_t c = kv["appsched"].find(','); if (c != std::string::npos) { g_app_period = (uint32_t)tounum(kv["appsched"].substr(0, c)); g_app_offset = (uint32_t)tounum(kv["appsched"].substr(c + 1)); g_app_on = true; } }
     if (kv.count("onopen")) { size_t c = kv["onopen"].find(','); if (c != std::string::npos) { g_onopen_iv = (uint32_t)tounum(kv["onopen"].substr(0, c)); g_onopen_off = (uint32_t)tounum(kv["onopen"].substr(c + 1)); g_onopen_node = n; } }
@@ -374,11 +384,12 @@ static void run_case(const std::string &line) {
       }
       else if (t[0] == "K" && t.size() >= 6) {          // SetProductInformation at run time: K s|p <hex model> <hex sw> <hex version> <hex serial>
         std::string s[4];
-        for (int k = 0; k < 4; k++) { std::string h = t[2 + k] == "-" ? std::string("") : t[2 + k]; for (size_t i = 0; i + 1 < h.size(); i += 2) s[k].push_back((char)strtoul(h.substr(i, 2).c_str(), 0, 16)); }
+        bool nul[4];       // ~ = the string is not given (null pointer): the field is left empty
+        for (int k = 0; k < 4; k++) { nul[k] = t[2 + k] == "~"; std::string h = (t[2 + k] == "-" || nul[k]) ? std::string("") : t[2 + k]; for (size_t i = 0; i + 1 < h.size(); i += 2) s[k].push_back((char)strtoul(h.substr(i, 2).c_str(), 0, 16)); }
         if (t[1] == "p") { tNMEA2000::tProductInformation *pi = new tNMEA2000::tProductInformation(); pi->Set(s[3].c_str(), 666, s[0].c_str(), s[1].c_str(), s[2].c_str(), 1, 2101, 0); n->SetProductInformation(pi); }
         else {
           char *b[4]; for (int k = 0; k < 4; k++) { b[k] = (char *)malloc(s[k].size() + 1); memcpy(b[k], s[k].c_str(), s[k].size() + 1); }   // exact-size heap strings
-          n->SetProductInformation(b[3], 666, b[0], b[1], b[2], 1, 2101, 0);
+          n->SetProductInformation(nul[3] ? 0 : b[3], 666, nul[0] ? 0 : b[0], nul[1] ? 0 : b[1], nul[2] ? 0 : b[2], 1, 2101, 0);
           for (int k = 0; k < 4; k++) free(b[k]);
         }
       }
